@@ -245,9 +245,10 @@ impl Prop for C06 {
             }
             _ => {
                 // the historical sample archive
-                let path = "/repo/samples/archive_v1.mla";
-                let keyp = "/repo/samples/test_x25519_archive_v1.pem";
-                let (Ok(img), Ok(pem)) = (std::fs::read(path), std::fs::read(keyp)) else {
+                let repo = std::env::var("VERIF_REPO").unwrap_or_else(|_| "/repo".into());
+                let path = format!("{repo}/samples/archive_v1.mla");
+                let keyp = format!("{repo}/samples/test_x25519_archive_v1.pem");
+                let (Ok(img), Ok(pem)) = (std::fs::read(&path), std::fs::read(&keyp)) else {
                     ctx.probe("sample-missing");
                     return v;
                 };
